@@ -369,6 +369,8 @@ Definition shape_burndown (r : burndown_result) : bool :=
   && msortedb name_compare (bd_files r)
   && msortedb name_compare (bd_ownership r)
   && forallb (fun o => msortedb Z.compare (snd o)) (bd_ownership r)
+  && forallb (fun o => match mfind name_compare (fst o) (bd_files r) with Some _ => true | None => false end)
+             (bd_ownership r)                          (* ownership tables belong to files with a history *)
   && (length (bd_people r) <=? length (bd_names r))%nat.
 
 (* the two side conditions under which nothing but clamping happens *)
